@@ -350,3 +350,22 @@ func vfInvalid(kind int) {
 func VfChunkUnsignedInvalid()      { vfInvalid(0) }
 func VfChunkSignedInvalid()        { vfInvalid(1) }
 func VfChunkSignedTrailerInvalid() { vfInvalid(2) }
+
+// VfCrashChunk: C20 – both chunk decoders on arbitrary bytes: no panic, no allocation sized by the (unauthenticated) input,
+// and the reader always terminates.
+func VfCrashChunk() {
+	n := 4 + 3*zzvf.Tier()
+	zzvf.Bound("input_len_max", n)
+	zzvf.Bound("alloc_limit", 1024) // an allocation of more than 1 KiB sized by these few unauthenticated bytes is reported
+	kind := zzvf.Choice("reader", 2)
+	data := zzvf.Bytes("input", n)
+	under := &vfFragReader{data: data}
+	var r io.Reader
+	if kind == 0 {
+		r = vfNewReader(0, under, checksumTypeCrc32)
+	} else {
+		r = vfNewReader(1, under, "")
+	}
+	_, _, _ = vfDrain(r, 64, 4*len(data)+16)
+	zzvf.Reach("returned")
+}
